@@ -110,7 +110,7 @@ pub fn run(rep: &mut Rep) {
     }
     // large packets in front of small ones, everything available at once, reads limited to a cap: acknowledgements of
     // what follows a large packet (whole or partly in the same read) must come out one-to-one, in order
-    let sizes: Vec<usize> = if rep.quick() { vec![0, 1, 2, 100, 600, 1500, 4000, 4097, 5000, 9000, 20_000, 70_000] } else { (0..130).chain((3900..4300).step_by(7)).chain([600, 1500, 8191, 8192, 8193, 9000, 16_384, 20_000, 65_536, 70_000, 300_000]).collect() };
+    let sizes: Vec<usize> = if rep.quick() { vec![0, 1, 2, 100, 600, 1500, 4000, 4097, 5000, 9000, 20_000, 70_000, 2_097_100, 2_097_140, 2_097_152, 2_100_000] } else { (0..130).chain((3900..4300).step_by(7)).chain([600, 1500, 8191, 8192, 8193, 9000, 16_384, 20_000, 65_536, 70_000, 300_000, 2_097_100, 2_097_130, 2_097_140, 2_097_152, 2_100_000, 5_000_000]).collect() };
     let caps: [usize; 7] = [usize::MAX, 1000, 700, 512, 333, 100, 7];
     rep.note(&format!("backlog behind a packet of every size class: inbound PUBLISH with a payload of {:?} bytes (QoS 0/1/2; 0 = the property block ends the packet) directly followed by QoS 1 PUBLISH, QoS 2 PUBLISH, PUBREL, QoS 1 PUBLISH - all bytes available at once, every read capped at {:?} bytes: acknowledgements matched one-to-one in order", sizes, caps));
     let mut bidx = total + 50_000_000;
@@ -145,6 +145,9 @@ pub fn run(rep: &mut Rep) {
             super::script::finish(&mut s.w);
             rep.add("evaluations", 1);
             rep.add("large_packet_backlog_cases", 1);
+            if sz >= 2_097_152 {
+                rep.add("backlog_cases_behind_a_four_byte_remaining_length", 1);
+            }
             rep.distinct(&("big", sz, ci));
             if harvest(rep, &mut s.w, &id) == 0 {
                 rep.sample(|| format!("{id}: {} bytes in reads of <= {cap}: {} acknowledgements matched in order", bytes.len(), s.w.counters.inbound_acks_matched));
